@@ -3396,14 +3396,26 @@ def ts2_writer_fragment_types(P, R, L, rule="TS-2"):
                             if st["k"] == "assign" and st["pl"]["l"] == 0 and st["rv"]["k"] == "use" and st["rv"]["ops"][0]["k"] in ("copy", "move"):
                                 tl_ |= roots(H, st["rv"]["ops"][0])
                     D, assigns, Fd, Ld = H, variant_assigns(H, tl_), pf[0], pl[0]
-    if Fd is None or Ld is None or set(assigns) != {"Full", "First", "Middle", "Last"}:
-        return R.check(rule, fn + "|anchors", False, where(b), "one const-assigned `first` flag, one `last` flag defined by an equality, four fragment types",
+    is_len = lambda os_: bool(os_) and all(o.kind == "call" and (o.name or "").endswith("::len") for o in os_)
+    not_len = lambda os_: bool(os_) and not is_len(os_)
+    # `last` need not be a flag of its own: with chunk = min(remaining, room), `remaining == chunk` is `remaining <= room`, and the
+    # type may be decided by that comparison directly - exactly `<=` on the last side, exactly `>` on the other
+    direct = Fd is not None and Ld is None and D is b and set(assigns) == {"Full", "First", "Middle", "Last"}
+    if Fd is None or (Ld is None and not direct) or set(assigns) != {"Full", "First", "Middle", "Last"}:
+        return R.check(rule, fn + "|anchors", False, where(b), "one const-assigned `first` flag, one `last` flag defined by an equality (or direct `remaining <= room` tests), four fragment types",
                        "first %s last %s variants %s" % (first, last, sorted(assigns)))
-    F, Lf = first[0], last[0]
+    F = first[0]
+    Lf = last[0] if not direct else None
     f_true = [(t.bb, y) for t in tests_of(D, Fd) for y in t.ok]
     f_false = [(t.bb, y) for t in tests_of(D, Fd) for y in t.err]
-    l_true = [(t.bb, y) for t in tests_of(D, Ld) for y in t.ok]
-    l_false = [(t.bb, y) for t in tests_of(D, Ld) for y in t.err]
+    if not direct:
+        l_true = [(t.bb, y) for t in tests_of(D, Ld) for y in t.ok]
+        l_false = [(t.bb, y) for t in tests_of(D, Ld) for y in t.err]
+    else:
+        l_true, l_false = [], []
+        for c in comparisons(b):
+            l_true += c.edges_where("le", is_len, not_len, exact=True)
+            l_false += c.edges_where("gt", is_len, not_len, exact=True)
     want = {"Full": (f_true, l_true), "First": (f_true, l_false), "Last": (f_false, l_true), "Middle": (f_false, l_false)}
     for v, (fe, le) in sorted(want.items()):
         ok = bool(fe) and bool(le) and all(D.must_pass_fs(x, through_edges=fe) and D.must_pass_fs(x, through_edges=le) for x in assigns[v])
@@ -3418,10 +3430,17 @@ def ts2_writer_fragment_types(P, R, L, rule="TS-2"):
     ok = bool(clears) and bool(starts) and all(b.must_pass(emit.bb, through_nodes=clears, start=s) for s in starts)
     R.check(rule, fn + "|first-flag-cleared-after-emit", ok, emit.where(), "after a fragment was written the next one is never typed First/Full", "clear sites %s" % clears)
     # last <=> remaining == chunk length; chunk = min(remaining, room); consumed amount == chunk length
-    d = [x for x in b.defs().get(Lf, []) if x[0] == "stmt"][0][3]
-    is_len = lambda os_: bool(os_) and all(o.kind == "call" and (o.name or "").endswith("::len") for o in os_)
-    lo, ro = origins(b, d["rv"]["ops"][0]), origins(b, d["rv"]["ops"][1])
-    chunk_op = d["rv"]["ops"][1] if is_len(lo) else d["rv"]["ops"][0]
+    split0 = [c for c in b.calls() if not b.is_cleanup(c.bb) and (c.name or "").endswith("::split_at")]
+    if not direct:
+        d = [x for x in b.defs().get(Lf, []) if x[0] == "stmt"][0][3]
+        lo, ro = origins(b, d["rv"]["ops"][0]), origins(b, d["rv"]["ops"][1])
+        chunk_op = d["rv"]["ops"][1] if is_len(lo) else d["rv"]["ops"][0]
+    else:
+        if not split0:
+            return R.check(rule, fn + "|anchors", False, where(b), "the written chunk is removed with split_at(chunk)", "no split_at")
+        chunk_op = split0[0].args[1]
+        lo = ro = [o for o in origins(b, split0[0].args[0])] and []
+        lo = origins(b, {"k": "copy", "pl": {"l": 0, "p": []}})[:0]
     def named(op, depth=0):
         if op["k"] not in ("copy", "move") or op["pl"]["p"] or depth > 6:
             return None
@@ -3444,7 +3463,7 @@ def ts2_writer_fragment_types(P, R, L, rule="TS-2"):
                             st["pl"]["l"] in roots(b, o.site.args[1]):
                         if chunk_named is not None and named(st["rv"]["ops"][1]) == chunk_named and st["rv"]["ops"][0]["k"] == "const" and st["rv"]["ops"][0].get("val") == "0":
                             rng_ok = True
-    R.check(rule, fn + "|last-means-remaining-equals-chunk", (is_len(lo) or is_len(ro)) and consumed_ok and rng_ok, where(b),
+    R.check(rule, fn + "|last-means-remaining-equals-chunk", (direct or is_len(lo) or is_len(ro)) and consumed_ok and rng_ok, where(b),
             "`last` compares the remaining length with the length of the chunk that is written now ([0..chunk]) and removed afterwards (split_at(chunk))",
             "len side %s, split_at uses chunk %s, emitted range is 0..chunk %s" % (is_len(lo) or is_len(ro), consumed_ok, rng_ok))
     # chunk = min(remaining, room)
@@ -4485,6 +4504,8 @@ def bundle_recovery(P, R, L):
              "GRD-11 (block offset of a re-used log), GRD-12 (only completely consumed logs are re-used), TS-1 / GRD-6 (log reader), FS-1 (create_file modes)")
     R.once(ord8c_recovered_sequence, P, R, L)
     R.once(role4_counters, P, R, L)
+    from . import round12 as _r12
+    R.once(_r12.role4_last_record_wins, P, R, L)
     R.once(grd11_reopen_offset, P, R, L)
     R.once(grd12_reuse_only_complete_logs, P, R, L)
     R.once(grd12_cursor_counts_complete_reads, P, R, L)
